@@ -86,6 +86,8 @@ def gen_script(ck, x, slot, tid, rnd, n_iter, wl, race_handles=(), extra=None):
             iv = rnd.randbytes(16); pt = rnd.randbytes(rnd.choice([16, 32, 64]))
             add({'fn': 'C_EncryptInit', 's': sref, 'mech': x.M('CKM_AES_CBC', hex=iv.hex()), 'key': extra['AESK']}, ('ok',)); add({'fn': 'C_Encrypt', 's': sref, 'data': pt.hex(), 'buf': len(pt)}, ('out', R.cbc(R.AES(keymat.AES16), iv, pt).hex()))
             add({'fn': 'C_SignInit', 's': sref, 'mech': x.M('CKM_SHA256_HMAC'), 'key': extra['GENK']}, ('ok',)); add({'fn': 'C_Sign', 's': sref, 'data': data.hex(), 'buf': 32}, ('out', hmac.new(keymat.GEN32, data, hashlib.sha256).hexdigest()))
+            if extra.get('RSAA'):      # a key that wants a context-specific login between Init and Sign (the re-authentication takes the token mutex while other threads use the token)
+                add({'fn': 'C_SignInit', 's': sref, 'mech': x.M('CKM_SHA256_RSA_PKCS'), 'key': extra['RSAA']}, ('ok',)); add({'fn': 'C_Login', 's': sref, 'user': 2, 'pin': USER.hex()}, ('ok',)); add({'fn': 'C_Sign', 's': sref, 'data': data.hex(), 'buf': 128}, ('out', sig))
             add({'fn': 'C_GetAttributeValue', 's': sref, 'o': extra['AESK'], 'tmpl': [{'t': ck.CKA_VALUE, 'buf': 16}]}, ('value', keymat.AES16.hex()))
             add({'fn': 'C_GetAttributeValue', 's': sref, 'o': extra['RSAK'], 'tmpl': [{'t': ck.CKA_MODULUS, 'buf': 128}]}, ('value', keymat.K['rsa1024']['n'].lower().zfill(256)))
         add({'fn': 'C_CloseSession', 's': sref}, ('ok',)); return S, E
@@ -283,6 +285,7 @@ def stress_job(job):
             import refcrypt as R
             KT = keymat.key_templates(ck); rk = keymat.K['rsa1024']; extra['rsa'] = R.RSAKey(int(rk['n'], 16), int(rk['e'], 16), int(rk['d'], 16), int(rk['p'], 16), int(rk['q'], 16))
             extra['RSAK'] = mk(KT['rsa_priv'], CKA_TOKEN=True, CKA_PRIVATE=True, CKA_LABEL=b'RSAK', CKA_SENSITIVE=True, CKA_EXTRACTABLE=False); extra['RSAP'] = mk(KT['rsa_pub'], CKA_TOKEN=True, CKA_PRIVATE=False, CKA_LABEL=b'RSAP')
+            rr = x.call('C_CreateObject', s=s0, tmpl=x.T(dict(KT['rsa_priv'], CKA_TOKEN=True, CKA_PRIVATE=True, CKA_LABEL=b'RSAA', CKA_ALWAYS_AUTHENTICATE=True))); extra['RSAA'] = rr['h'] if rr['rv'] == 0 else None
             extra['AESK'] = mk(KT['aes'], CKA_TOKEN=True, CKA_PRIVATE=True, CKA_LABEL=b'AESK'); extra['GENK'] = mk(KT['generic'], CKA_TOKEN=False, CKA_PRIVATE=True, CKA_LABEL=b'GENK')
         if wl in ('keygen', 'keygen-token'): extra['WRAPK'] = mk(keymat.key_templates(ck)['aes'], CKA_TOKEN=True, CKA_PRIVATE=False, CKA_LABEL=b'WRAPK')
         if wl in ('two-token', 'two-token-logins'):
